@@ -249,7 +249,7 @@ def load_currency_data():
                 data = parse_currency_data(f.read())
         except Exception:
             print("Failed to parse currency data, falling back to default...",
-                  out=sys.stderr)
+                  file=sys.stderr)
     if data is None:
         # Fall back to the default.
         data = parse_currency_data(DEFAULT_CURRENCY_DATA)
